@@ -30,7 +30,7 @@ CC = "guppylang_internals.compiler.core"
 EC = "guppylang_internals.compiler.expr_compiler"
 NCHUNK = 8
 
-KNOWN_EXPR = {"lift": ("n", "n0() + (n1() if b0() else n2())"), "reflect": ("n", "n0() + s0()")}
+KNOWN_EXPR = {"lift": ("n", "n0() + (n1() if b0() else n2())"), "reflect": ("n", "n0() + s0()"), "subscript": ("n", "array(n0(), n1(), n2())[n3()]")}
 
 
 def run(chk):
